@@ -372,7 +372,7 @@ def family(tier):
     sa = [M(["lsft"], ["a"])]
     fam = [
         ("hs_ab_oab", [ab, oab], "hidden-suppressed", {}),
-        ("hd_ab_ba", [ab, [K("b"), K("a")]], "hidden-delay-type", {"T": 2}),
+        ("hd_ab_ba", [ab, [K("b"), K("a")]], "hidden-delay-type", {"T": 3}),
         ("vb_ab_oab", [ab, oab], "visible-backspaced", {"T": 2}),
         ("hd_on_ab_bba", [ab, [K("b"), K("b"), K("a")]], "hidden-delay-type", {"always": True, "leader": False}),
         ("vb_sa", [sa, [K("a"), K("lsft")]], "visible-backspaced", {"keys": ("lsft", "a"), "T": 2}),
